@@ -7,6 +7,7 @@
 //@harness name=create_small_model tier=thorough label=bounded(2-states,speed-in-[0.8,8]) props=C08,C01 timeout=1800
 //@harness name=align_small_model tier=thorough label=bounded(3-labels,1-state,ends<=10) props=C09,C01 timeout=1800
 //@harness name=align_trailing_labels tier=thorough label=bounded(3-labels,1-state) props=C09,C01 timeout=1800
+//@harness name=fit_repeated_shrink_keeps_floor tier=quick label=bounded(3-and-4-states,concrete-values) props=C08,C01 timeout=900
 use super::*;
 
 fn params2() -> Vec<MeanVari> { vec![MeanVari(3.0, 1.0), MeanVari(5.0, 4.0)] }
@@ -78,5 +79,20 @@ fn align_trailing_labels() {
     let r = e.create_with_alignment(&[(0.0, e0), (e0, -1.0), (-1.0, -1.0)]);
     assert!(r.len() == 3);
     assert!(r[1] == 5 && r[2] == 2);
+    kani::cover!(true);
+}
+
+/// C08 floor under repeated shrinking, on the real fit with concrete values (the symbolic version is
+/// fit_small_model, thorough): the first rho-based estimate overshoots the target by 3 and by 6 frames, so the
+/// shrink branch runs several times and must skip states that have reached one frame
+#[kani::proof]
+#[kani::unwind(12)]
+fn fit_repeated_shrink_keeps_floor() {
+    let p = vec![MeanVari(8.0, 0.5), MeanVari(12.0, 0.5), MeanVari(2.0, 0.5)];
+    let r = DurationEstimator::estimate_duration_with_frame_length(&p, 5.5);
+    assert!(r.len() == 3 && r[0] >= 1 && r[1] >= 1 && r[2] >= 1 && r[0] + r[1] + r[2] == 6);
+    let q = vec![MeanVari(12.0, 25.0), MeanVari(5.0, 25.0), MeanVari(8.0, 4.0), MeanVari(8.0, 1.0)];
+    let s = DurationEstimator::estimate_duration_with_frame_length(&q, 11.0);
+    assert!(s.len() == 4 && s[0] >= 1 && s[1] >= 1 && s[2] >= 1 && s[3] >= 1 && s[0] + s[1] + s[2] + s[3] == 11);
     kani::cover!(true);
 }
